@@ -199,6 +199,15 @@ func c10Replay(scratch string, files [][]byte) ([]byte, error) {
 	return os.ReadFile(dbp)
 }
 
+func c10TryBuildBase(name, scratch string) (b *c10Base, failure string) {
+	defer func() {
+		if r := recover(); r != nil {
+			b, failure = nil, fmt.Sprint(r)
+		}
+	}()
+	return c10BuildBase(name, scratch), ""
+}
+
 func c10BuildBase(name, scratch string) *c10Base {
 	td := "testdata/db-and-wals/"
 	b := &c10Base{name: name}
@@ -1057,7 +1066,13 @@ func TestVerif_C10(t *testing.T) {
 		if err := json.Unmarshal(raw, &in); err != nil {
 			t.Fatal(err)
 		}
-		b := c10BuildBase(in.Shape, scratch)
+		b, berr := c10TryBuildBase(in.Shape, scratch)
+		if berr != "" {
+			w.Emit(VCase{Input: in, Key: "base:" + in.Shape,
+				OracleFail: "building the source snapshot '" + in.Shape + "' through the real store API failed: " + berr,
+				Sig:        "C10:valid-stream-rejected:while-building-source"})
+			return
+		}
 		var ds []c10Done
 		for _, tr := range in.Trials {
 			ds = append(ds, c10RunTrial(scratch, b, tr))
@@ -1076,7 +1091,14 @@ func TestVerif_C10(t *testing.T) {
 	}
 	var small, big []pending
 	for _, name := range shapes {
-		b := c10BuildBase(name, scratch)
+		b, berr := c10TryBuildBase(name, scratch)
+		if berr != "" {
+			// the real store cannot create, install or stream an intact snapshot of this shape
+			w.Emit(VCase{Input: c10Input{Shape: name}, Key: "base:" + name, Tags: []string{"shape=" + name},
+				OracleFail: "building the source snapshot '" + name + "' through the real store API failed: " + berr,
+				Sig:        "C10:valid-stream-rejected:while-building-source"})
+			continue
+		}
 		group := 1
 		if b.real {
 			group = 20
